@@ -132,6 +132,19 @@ def mk(rec):
             a = rs.standard_normal(size=shape)
             a[..., : min(n, 1 + rs.randint(1, 4))] = 0.0
             return a
+        # structured data: alternating, periodic, sorted, symmetric (data-dependent branches that random data never takes)
+        if kind == "alt":
+            return np.broadcast_to((-1.0) ** np.arange(n) * (1 + rs.randint(0, 3)), shape).copy()
+        if kind == "periodic":
+            p_ = int(rs.randint(1, max(2, min(n, 9))))
+            base_ = rs.randint(-3, 4, size=shape[:-1] + (p_,)).astype(float)
+            reps = -(-n // p_)
+            return np.concatenate([base_] * reps, axis=-1)[..., :n]
+        if kind == "sorted":
+            return np.sort(rs.standard_normal(size=shape), axis=-1)
+        if kind == "sym":
+            a = rs.standard_normal(size=shape)
+            return a + a[..., ::-1]
         raise ValueError(kind)
 
     re = base(fam)
